@@ -2261,7 +2261,7 @@ def _generate(repo, base, force):
     return "\n".join(chunks), done, failed, newbase
 
 
-def regenerate2(repo, out_path, write_baseline=False, force_all=None):
+def regenerate2(repo, out_path, write_baseline=False, force_all=None, force_some=None):
     """Returns {'translated2': [...], 'failed2': {name: reason}}; rewrites out_path only when its content changes.
     A function that cannot be translated any more, or whose interface (parameters, result kind) differs from the one the stored
     lemmas are stated about, is replaced by its BASELINE translation (the translation of the same function at the pinned commit,
@@ -2276,6 +2276,8 @@ def regenerate2(repo, out_path, write_baseline=False, force_all=None):
     force = {}
     if force_all:
         force = dict((c["coq"], force_all) for c in FUNCS2 + SKELETONS + FLOWFUNCS)
+    if force_some:
+        force.update(force_some)
     for _round in range(len(FUNCS2) + 2):
         text, done, failed, newbase = _generate(repo, base, force)
         more = dict((n, r) for n, r in failed.items() if n not in force)
@@ -2289,6 +2291,20 @@ def regenerate2(repo, out_path, write_baseline=False, force_all=None):
         with open(BASELINE, "w") as f:
             json.dump(newbase, f, indent=1, sort_keys=True)
     return {"translated2": done, "failed2": failed}
+
+
+def function_at_line(gen2_text, line_no):
+    """coq name (as in FUNCS2 / SKELETONS / FLOWFUNCS) of the translated function whose definition contains the given line of Gen2.v"""
+    lines = gen2_text.split("\n")
+    names = sorted((c["coq"] for c in FUNCS2 + SKELETONS + FLOWFUNCS), key=len, reverse=True)
+    for i in range(min(line_no, len(lines)) - 1, -1, -1):
+        m = re.match(r"(?:Definition|Fixpoint) (\w+)", lines[i])
+        if m:
+            for n in names:
+                if m.group(1) == n or m.group(1).startswith(n + "_"):
+                    return n
+            return None
+    return None
 
 
 if __name__ == "__main__":
